@@ -107,15 +107,18 @@ ResolveRel(e) == {<<e.ti, "ResolveRel", l>> : l \in {l \in 1..NL : ~H.lflush[l] 
 
 \* ---------------------------------------------------------------------------------------------- C04
 JEmpty(e) == {<<e.ti, "JEmpty", c>> : c \in {c \in 1..NC : IsJ(c) /\ (Tot(e.nx[c]).s # 0 \/ Tot(e.st[c]).s # 0)}}
+\* (each of the sums in JSplit adds up to MaxRows quantised elapsed-time bins per link: the quantisation slack grows with the number of terms)
+MaxRows == CHOOSE n \in {H.rows[c] : c \in 1..NC} : \A c \in 1..NC : H.rows[c] <= n
+JSlack(j, s) == UMul(s, UFromInt(4 + 2 * (Cardinality(Inl(j)) + 1) * MaxRows))
 JSplitOK(e, j) == LET outs == Outl(j)
                       fr == [l \in outs |-> IF H.lpar[l] = 0 THEN SZero ELSE SMax(SZero, e.pv[H.lpar[l]])]      \* a negative proportion moves nobody
                       tot == BSum(outs, fr)
                       inflow == InF(e, j)
                   IN \A l \in outs :
-                     IF H.kind[j] = "junction" THEN RelClose(SMul(Tot(e.fl[l]), tot), SMul(inflow, fr[l]), K1e9, PSlack(SAdd(Tot(e.fl[l]), inflow), SAdd(tot, fr[l])))
+                     IF H.kind[j] = "junction" THEN RelClose(SMul(Tot(e.fl[l]), tot), SMul(inflow, fr[l]), K1e9, JSlack(j, PSlack(SAdd(Tot(e.fl[l]), inflow), SAdd(tot, fr[l]))))
                      ELSE IF H.lpar[l] = 0
-                          THEN RelClose(SMul(Tot(e.fl[l]), SOne), SMul(inflow, SMax(SZero, SSub(SOne, tot))), K1e9, PSlack(SAdd(Tot(e.fl[l]), inflow), SAdd(SOne, tot)))
-                          ELSE RelClose(SMul(Tot(e.fl[l]), SMax(SOne, tot)), SMul(inflow, fr[l]), K1e9, PSlack(SAdd(Tot(e.fl[l]), inflow), SAdd(SMax(SOne, tot), fr[l])))
+                          THEN RelClose(SMul(Tot(e.fl[l]), SOne), SMul(inflow, SMax(SZero, SSub(SOne, tot))), K1e9, JSlack(j, PSlack(SAdd(Tot(e.fl[l]), inflow), SAdd(SOne, tot))))
+                          ELSE RelClose(SMul(Tot(e.fl[l]), SMax(SOne, tot)), SMul(inflow, fr[l]), K1e9, JSlack(j, PSlack(SAdd(Tot(e.fl[l]), inflow), SAdd(SMax(SOne, tot), fr[l]))))
 JSplit(e) == {<<e.ti, "JSplit", j>> : j \in {j \in 1..NC : IsJ(j) /\ InF(e, j).s > 0 /\ ~JSplitOK(e, j)}}
 
 \* the start-up flush moves the initial content of junctions downstream: nobody is created or lost (init = state injected
